@@ -406,14 +406,6 @@ Qed.
 
 (* ---------- Offset::Local: the file system and the clock are parameters ---------- *)
 (* file = None: /etc/localtime unreadable; now_ts: DateTime::now().timestamp() *)
-Definition resolve_local (file : option bytes) (now_ts : Z) : tzres Z :=
-  match file with
-  | None => TzOk 0
-  | Some bs => match from_tzif bs with
-               | TzOk tz => to_local_time_type tz now_ts
-               | TzErr => TzOk 0
-               | TzPanic => TzPanic end
-  end.
 Theorem resolve_local_no_panic file now_ts :
   (forall bs, file = Some bs -> Forall (fun b => 0 <= b) bs) -> ts_in_range now_ts -> nopanic (resolve_local file now_ts).
 Proof.
